@@ -717,14 +717,14 @@ inline void u_compare(Env& E) {
 // ---- member of a document that is then COPIED, the original being destroyed before the copy is observed
 inline void copyUse(Env& E, int how) {
   const std::string& s = E.src->bytes;
-  Found w{{true, "v"}, {false, s}, {true, s}, {true, "a"}, {false, s}};
+  Found w{{true, "V"}, {false, s}, {true, s}, {true, "A"}, {false, s}};
   LedgerAllocator A, B;
   {
     JsonDocument* orig = new JsonDocument(&A);
     E.src->visit([&](auto& x) {
-      (*orig)["v"] = x;
+      (*orig)["V"] = x;
       (*orig)[x] = 1;
-      (*orig)["a"].add(x);
+      (*orig)["A"].add(x);
     });
     E.after();
     bool rej = refusedExpected(E);
@@ -737,7 +737,7 @@ inline void copyUse(Env& E, int how) {
       case 1: copy = *orig; break;                                         // copy assignment
       case 2: copy.set(*orig); break;                                      // JsonDocument::set(const JsonDocument&)
       case 3: copy = std::move(*orig); break;                              // move assignment
-      case 4: copy.clear(); copy["v"].set((*orig)["v"]); copy[s] = (*orig)[s]; copy["a"].set((*orig)["a"]); break;  // member-wise v2.set(v1)
+      case 4: copy.clear(); copy["V"].set((*orig)["V"]); copy[s] = (*orig)[s]; copy["A"].set((*orig)["A"]); break;  // member-wise v2.set(v1)
     }
     delete orig;
     observeDoc(E, copy, "copy");
@@ -755,11 +755,11 @@ inline void u_copyMembers(Env& E) { copyUse(E, 4); }
 // v2.set(v1) inside one document, then the first user disappears
 inline void u_copyWithin(Env& E) {
   const std::string& s = E.src->bytes;
-  Found w{{true, "b"}, {false, s}};
+  Found w{{true, "B"}, {false, s}};
   freshDoc(E, w, [&](JsonDocument& doc) {
-    HXS_CALL(E, doc["a"] = x);
-    bool ok = doc["b"].set(doc["a"]);
-    doc.remove("a");
+    HXS_CALL(E, doc["A"] = x);
+    bool ok = doc["B"].set(doc["A"]);
+    doc.remove("A");
     return refusedExpected(E) ? -1 : int(ok);
   });
 }
